@@ -13,6 +13,9 @@ static const char* BUILD = "fib";
 static const char* BUILD = "pq";
 #endif
 
+// the caller's index range need not be 0..N-1: the case may carry `idx=` (distinct non-negative values, any order);
+// the weight the model uses for positions (u, x) is then what the callback returns for the VALUES (idx[u], idx[x]),
+// so `callback.distance(begin[u], begin[x])` and a (wrong) `callback.distance(u, x)` are distinguishable
 struct matrix_distance
 {
     const DenseMatrix* W;
@@ -21,6 +24,35 @@ struct matrix_distance
         return (*W)(a, b);
     }
 };
+
+static std::vector<IndexType> parse_idx(std::map<std::string, std::string>& f, IndexType N)
+{
+    std::vector<IndexType> idx(N);
+    for (IndexType i = 0; i < N; i++)
+        idx[i] = i;
+    if (f.count("idx"))
+    {
+        auto v = vh::parse_ints(f["idx"]);
+        for (IndexType i = 0; i < N && i < (IndexType)v.size(); i++)
+            idx[i] = (IndexType)v[i];
+    }
+    return idx;
+}
+
+// value-indexed copy of the position-indexed weight matrix; entries never addressed by a correct run are poisoned
+// with a negative value (a query by position instead of by value then changes the result or trips the oracle)
+static DenseMatrix by_value(const DenseMatrix& W, const std::vector<IndexType>& idx)
+{
+    IndexType m = 0;
+    for (IndexType v : idx)
+        m = std::max(m, v + 1);
+    m = std::max<IndexType>(m, W.rows());
+    DenseMatrix V = DenseMatrix::Constant(m, m, 12345.0);
+    for (IndexType u = 0; u < (IndexType)idx.size() && u < W.rows(); u++)
+        for (IndexType x = 0; x < (IndexType)idx.size() && x < W.cols(); x++)
+            V(idx[u], idx[x]) = W(u, x);
+    return V;
+}
 
 static DenseMatrix parse_matrix(const std::string& s)
 {
